@@ -136,7 +136,90 @@ class Prov:
                 if isinstance(e, dict) and "f" in e:
                     return {("upvar", self._upvar_name(e["f"]))}
             return {("upvar", "<env>")}
+        sel = self._selector(p)
+        if sel is not None:
+            r = self._origins_sel(l, sel, 0, set())
+            if r:
+                return r
         return self.origins(l)
+
+    # --- projection-sensitive origins: `(x as Variant).k` / `x.k` look only at what was stored
+    # into that variant payload / field (one level; deeper projections are merged) -----------
+    @staticmethod
+    def _selector(p):
+        elems = [e for e in p["p"] if e != "*"]
+        if not elems:
+            return None
+        e0 = elems[0]
+        if isinstance(e0, dict) and "downcast" in e0 and len(elems) >= 2 and isinstance(elems[1], dict) and "f" in elems[1]:
+            return ("variant", e0["downcast"], elems[1]["f"])
+        if isinstance(e0, dict) and "f" in e0:
+            return ("field", e0["f"])
+        return None
+
+    def _origins_sel(self, l, sel, depth, seen):
+        if depth > 6 or (l, sel) in seen:
+            return None
+        seen = seen | {(l, sel)}
+        b = self.body
+        out = set()
+        if 1 <= l <= b.arg_count and not b.defs.get(l):
+            return None
+        for (bb, kind, d) in b.defs.get(l, []):
+            if kind == "call":
+                out |= self._call(d)
+                continue
+            dst = d["dst"]
+            rv = d["rv"]
+            dsel = [e for e in dst["p"] if e != "*"]
+            if dsel:
+                # partial write  x.f = v  /  (x as V).k = v
+                e0 = dsel[0]
+                if sel[0] == "field" and isinstance(e0, dict) and e0.get("f") == sel[1] and "downcast" not in e0:
+                    out |= self._rv(d)
+                elif sel[0] == "variant" and isinstance(e0, dict) and e0.get("downcast") == sel[1]:
+                    out |= self._rv(d)
+                continue
+            k = rv["k"]
+            if k in ("use", "cast"):
+                q = op_place(rv["op"])
+                if q is None:
+                    out |= self.origins_op(rv["op"])
+                elif not [e for e in q["p"] if e != "*"] and not (b.kind.startswith(("closure", "coroutine")) and q["l"] == 1):
+                    r = self._origins_sel(q["l"], sel, depth + 1, seen)
+                    out |= r if r else self.origins(q["l"])
+                else:
+                    out |= self.origins_op(rv["op"])
+            elif k in ("ref", "rawptr"):
+                q = rv["place"]
+                if not [e for e in q["p"] if e != "*"] and not (b.kind.startswith(("closure", "coroutine")) and q["l"] == 1):
+                    r = self._origins_sel(q["l"], sel, depth + 1, seen)
+                    out |= r if r else self.origins(q["l"])
+                else:
+                    out |= self.origins_place(q)
+            elif k == "agg":
+                if rv.get("agg") == "adt":
+                    if sel[0] == "variant":
+                        if rv.get("variant_idx") == sel[1]:
+                            if sel[2] < len(rv["ops"]):
+                                out |= self.origins_op(rv["ops"][sel[2]])
+                        # another variant stores nothing into this payload
+                    else:
+                        if len(rv["ops"]) == len(rv.get("fields", [])) and sel[1] < len(rv["ops"]):
+                            out |= self.origins_op(rv["ops"][sel[1]])
+                        else:
+                            out |= self._rv(d)
+                elif rv.get("agg") == "tuple" and sel[0] == "field":
+                    if sel[1] < len(rv["ops"]):
+                        out |= self.origins_op(rv["ops"][sel[1]])
+                else:
+                    out |= self._rv(d)
+            else:
+                out |= self._rv(d)
+        for c in self._mutations().get(l, []):
+            for a in c.args[1:]:
+                out |= self.origins_op(a)
+        return out or None
 
     def _upvar_name(self, idx):
         for u in self.body.j.get("upvars", []):
